@@ -56,3 +56,25 @@ type Line struct {
 	Info  json.RawMessage `json:"info,omitempty"`
 	Err   string          `json:"err,omitempty"`
 }
+
+// ShardInfo is what a shard job (stateless search, fault or input enumeration) reports.
+type ShardInfo struct {
+	Evaluations     int             `json:"evaluations"`
+	States          int             `json:"states"`
+	Transitions     int             `json:"transitions"`
+	Nontrivial      []string        `json:"nontrivial"`       // distinct non-trivial case digests
+	NontrivialCount int             `json:"nontrivial_count"` // or a measured count when listing is too large
+	Outcomes        []string        `json:"outcomes"`
+	Samples         []interface{}   `json:"samples"`
+	Violations      []ShardViol     `json:"violations"`
+	Exhaustive      bool            `json:"exhaustive"`
+	Cap             string          `json:"cap"`
+	Extra           json.RawMessage `json:"extra,omitempty"`
+}
+
+// ShardViol is a violation found by a shard job.
+type ShardViol struct {
+	Viol  Violation       `json:"viol"`
+	Hist  []Action        `json:"hist,omitempty"`
+	Extra json.RawMessage `json:"extra,omitempty"`
+}
